@@ -17,16 +17,18 @@ for line in open(os.path.join(root, "FIRSTRUN.rows")):
     if len(p) >= 2:
         first[p[0]] = p[1]
 # the second round (ids -C, -D): first run recorded in FIRSTRUN2.rows in the row format of MATRIX.rows
-if os.path.exists(os.path.join(root, "FIRSTRUN2.rows")):
-    for line in open(os.path.join(root, "FIRSTRUN2.rows")):
+for fr in ("FIRSTRUN2.rows", "FIRSTRUN3.rows"):
+    if not os.path.exists(os.path.join(root, fr)):
+        continue
+    for line in open(os.path.join(root, fr)):
         p = [x.strip() for x in line.strip().strip("|").split("|")]
         if len(p) >= 3:
             first[p[0]] = p[2]
 out = ["# Seeded changes and the checks that catch them", "",
        "Each change was written by an independent sub-agent that saw only the property text and a scratch worktree;",
        "it compiles, passes the repository's tests and comes with a demonstration (`seeded/<id>/`).",
-       "Round 1 (ids -A, -B) and round 2 (ids -C, -D; written after round 1 had been used to strengthen the checks, by agents",
-       "told to use other mechanisms). `first run` (FIRSTRUN.rows, FIRSTRUN2.rows) is the result before any check was strengthened for that round, `now` the result of the last run of",
+       "Round 1 (ids -A, -B), round 2 (ids -C, -D) and round 3 (ids -E, -F; each later round written after the earlier ones had been used to strengthen the checks, by agents",
+       "told to use other mechanisms). `first run` (FIRSTRUN.rows, FIRSTRUN2.rows, FIRSTRUN3.rows) is the result before any check was strengthened for that round, `now` the result of the last run of",
        "`tools/seeded.sh <id>` (quick tier, `VERIF_REPO=<scratch copy with the patch>`).", "",
        "| Id | Property | Change | first run | now |", "|---|---|---|---|---|"]
 n = det = 0
